@@ -251,6 +251,7 @@ class GoExec:
         rp = getattr(self.frame, 'replayer', None)
         if rp is not None and 'replayer' not in meta:
             meta['replayer'] = lambda ob, model, rp=rp: rp.replay(ob)
+            if getattr(rp, 'replays_unknown', False): meta['replay_unknown'] = True
         self.obls.append(Obligation(n, self.relevant_axioms(body + [goal]) + body, goal, kind, func=fname, src=src, meta=meta))
 
     def base_hyps(self):
